@@ -430,7 +430,39 @@ def _const_of(rv, adts, env=None):
         if env is not None and len(ops) == 1 and ops[0].get('k') in ('cp', 'mv') and not ops[0]['pl'].get('p') and ops[0]['pl']['l'] in env:
             return ('variant', d, env[ops[0]['pl']['l']])
         return ('variant', d)
+    if rv.get('k') == 'agg' and rv.get('ak') == 'tuple' and env is not None:
+        # a tuple literal with a component whose constant / variant is known: `(term, None)`
+        fs = {}
+        for i, o in enumerate(rv.get('ops') or []):
+            if o.get('k') in ('cp', 'mv') and not o['pl'].get('p') and o['pl']['l'] in env:
+                fs[i] = env[o['pl']['l']]
+        if fs:
+            return ('tuple', fs)
     return None
+
+
+def _project(env, pl):
+    """what is known of the place `pl` (a local followed by field / downcast projections) in env, or None"""
+    v = env.get(pl['l'])
+    if v is None:
+        return None
+    for e in (pl.get('p') or []):
+        if v is None or not isinstance(e, dict):
+            return None
+        if 'dc' in e:
+            if v[0] != 'variant':
+                return None
+            continue
+        if 'f' in e:
+            if v[0] == 'tuple':
+                v = v[1].get(e['f'])
+            elif v[0] == 'variant' and len(v) > 2 and e['f'] == 0:
+                v = v[2]
+            else:
+                return None
+            continue
+        return None
+    return v
 
 
 def _payload_of(rv, env):
@@ -443,6 +475,8 @@ def _payload_of(rv, env):
         v = env[pl['l']]
         if v[0] == 'variant' and len(v) > 2:
             return v[2]
+    if p and pl['l'] in env:
+        return _project(env, pl)
     return None
 
 
@@ -518,7 +552,11 @@ def thread_jumps(body, adts, max_rounds=6, max_new=1500):
                     continue
                 pl = st['pl']
                 if pl.get('p'):
+                    if (known.get(pl['l']) or ('?',))[0] == 'tuple':
+                        known.pop(pl['l'], None)
                     continue
+                if st['rv'].get('k') == 'ref' and st['rv'].get('mut') and (known.get(st['rv']['pl']['l']) or ('?',))[0] == 'tuple':
+                    known.pop(st['rv']['pl']['l'], None)
                 c = _const_of(st['rv'], adts, known) or _payload_of(st['rv'], known)
                 if c is not None:
                     known[pl['l']] = c
@@ -541,12 +579,18 @@ def thread_jumps(body, adts, max_rounds=6, max_new=1500):
                         continue
                     pl = st['pl']
                     if pl.get('p'):
+                        if (env.get(pl['l']) or ('?',))[0] == 'tuple':
+                            env.pop(pl['l'], None)        # a component is overwritten
                         continue
                     rv = st['rv']
+                    if rv.get('k') == 'ref' and rv.get('mut') and (env.get(rv['pl']['l']) or ('?',))[0] == 'tuple':
+                        env.pop(rv['pl']['l'], None)
                     if rv.get('k') == 'use' and rv['op'].get('k') in ('cp', 'mv') and not rv['op']['pl'].get('p') and rv['op']['pl']['l'] in env:
                         env[pl['l']] = env[rv['op']['pl']['l']]
                     elif rv.get('k') == 'discr' and not rv['pl'].get('p') and rv['pl']['l'] in env and env[rv['pl']['l']][0] == 'variant':
                         env[pl['l']] = ('int', env[rv['pl']['l']][1])
+                    elif rv.get('k') == 'discr' and rv['pl'].get('p') and (_project(env, rv['pl']) or ('?',))[0] == 'variant':
+                        env[pl['l']] = ('int', _project(env, rv['pl'])[1])      # `match pair.1 { None => .. }` of a pair built from a literal
                     elif rv.get('k') == 'ref' and not rv['pl'].get('p') and rv['pl']['l'] in env and env[rv['pl']['l']][0] == 'variant':
                         env[pl['l']] = env[rv['pl']['l']]       # `&x` of a value whose variant is known (only is_some()/is_none() look through it)
                     else:
